@@ -211,12 +211,14 @@ extern "C" void h_c36_tsan(unsigned long) {
     PartialNode pn; Node* n = pn.node();
     n->config_.handshake_pow_difficulty = 0; n->config_.handshake_cooldown = std::chrono::seconds(0);
     n->key_manager_.~KeyManager(); new (&n->key_manager_) network::KeyManager(std::chrono::seconds(1));
+    new (&n->scheduler_mutex_) std::recursive_mutex(); new (&n->peer_message_versions_) decltype(n->peer_message_versions_)();
     (void)n->perform_handshake(remote_id(), 7, 1);
     std::thread accept([&] { for (int i = 0; i < 400; ++i) (void)n->perform_handshake(remote_id(), 7 + static_cast<std::uint32_t>(i % 5), 1); });
-    std::thread reader([&] { for (int i = 0; i < 400; ++i) (void)n->session_shared_key(remote_id()); });
-    new (&n->scheduler_mutex_) std::recursive_mutex();
-    std::thread serve([&] { for (int i = 0; i < 400; ++i) { std::scoped_lock lock(g_node_mutex); n->rotate_session_keys(std::chrono::steady_clock::now()); (void)n->session_key(remote_id()); std::unique_lock<std::recursive_mutex> sched(n->scheduler_mutex_); (void)n->perform_handshake(remote_id(), 9 + static_cast<std::uint32_t>(i % 3), 1); } });
-    accept.join(); reader.join(); serve.join();
+    auto reader_role = [&](unsigned who) { for (int i = 0; i < 400; ++i) { (void)n->session_shared_key(remote_id()); PeerId p = remote_id(); p[5] = static_cast<std::uint8_t>(who * 100 + i % 50); n->note_peer_message_version(p, static_cast<std::uint8_t>(1 + i % 4)); (void)n->outbound_message_version_for(remote_id()); } };
+    std::thread reader1(reader_role, 0u), reader2(reader_role, 1u);
+    // the serve loop: every rotation is due (the tick timestamp runs ahead by the rotation interval), then a bootstrap handshake
+    std::thread serve([&] { for (int i = 0; i < 400; ++i) { std::scoped_lock lock(g_node_mutex); n->rotate_session_keys(std::chrono::steady_clock::now() + std::chrono::seconds(2 * (i + 1))); (void)n->session_key(remote_id()); std::unique_lock<std::recursive_mutex> sched(n->scheduler_mutex_); (void)n->perform_handshake(remote_id(), 9 + static_cast<std::uint32_t>(i % 3), 1); } });
+    accept.join(); reader1.join(); reader2.join(); serve.join();
     std::printf("TSAN-RUN-DONE\n");
 }
 #endif
